@@ -87,5 +87,5 @@ module.exports = {
   inflight: 8,
   rule: 'leaf = (operation schema x operand atoms x expression ctx x statement ctx x scope kind x config) rendered to a program; executed = input and rewritten content in fresh V8 contexts for every environment; non-trivial = rewriter reported modified and both sides compile; distinct by (program text, config)',
   explanation: 'explicit-state exploration of the program space (families A,B,C,G), differential execution of every leaf against V8 running the input as reference model',
-  assumptions: ['run-time values limited to G7 (strings, numbers, null/undefined, logging Proxy objects, mutating/throwing callee)', 're-reading a local identifier is unobservable (all free names are locals of main)', 'error messages/positions not compared; coerce events may move only when the input has a template with >= 2 substitutions', 'native build of the rewriter; V8 of Node 20']
+  assumptions: ['the source text of functions (Function.prototype.toString, visible when a function is coerced to a string) is compared modulo layout: every re-printing changes it', 'run-time values limited to G7 (strings, numbers, null/undefined, logging Proxy objects, mutating/throwing callee)', 're-reading a local identifier is unobservable (all free names are locals of main)', 'error messages/positions not compared; coerce events may move only when the input has a template with >= 2 substitutions', 'native build of the rewriter; V8 of Node 20']
 }
